@@ -152,8 +152,25 @@ func cmdWorker(args []string) int {
 			}
 			continue
 		}
+		// the unminimised trace is written out first: should this process be killed while minimising (watchdog), the
+		// supervisor still has a replayable violation
+		os.MkdirAll(*outdir, 0o755)
+		path := filepath.Join(*outdir, fmt.Sprintf("%s-%s-%d.json", *prop, *build, rs))
+		{
+			full := *tr
+			full.Violation = v
+			full.Property = *prop
+			b, _ := json.MarshalIndent(&full, "", " ")
+			os.WriteFile(path, b, 0o644)
+			emit(workerMsg{T: "found", K: uint64(k), Seed: rs, Class: v.Class, Props: sim.Attribute(tr, v), Msg: v.Msg, Replay: path, Facts: sim.FactsOf(tr, v)})
+		}
 		// minimise, attribute again on the minimised trace, write the replay file
 		dl := time.Now().Add(60 * time.Second)
+		if *deadline > 0 {
+			if lim := time.Unix(*deadline, 0).Add(20 * time.Second); lim.Before(dl) {
+				dl = lim // the supervisor's watchdog fires 45 s after the batch deadline
+			}
+		}
 		var keepAttr func(*sim.Trace, *sim.Violation) bool
 		if !sim.DirectlyAttributed(v, *prop) {
 			keepAttr = func(c *sim.Trace, cv *sim.Violation) bool { return contains(sim.Attribute(c, cv), *prop) }
@@ -165,6 +182,7 @@ func cmdWorker(args []string) int {
 			v2, e2 = sim.RunTrace(small, true)
 		}
 		if v2 == nil {
+			os.Remove(path)
 			emit(workerMsg{T: "unconfirmed", K: uint64(k), Seed: rs, Class: v.Class, Msg: v.Msg})
 			continue
 		}
@@ -172,8 +190,6 @@ func cmdWorker(args []string) int {
 		small.Violation = v2
 		small.Concrete = e2.Concrete
 		small.Property = *prop
-		os.MkdirAll(*outdir, 0o755)
-		path := filepath.Join(*outdir, fmt.Sprintf("%s-%s-%d.json", *prop, *build, rs))
 		b, _ := json.MarshalIndent(small, "", " ")
 		os.WriteFile(path, b, 0o644)
 		emit(workerMsg{T: "viol", K: uint64(k), Seed: rs, Class: v2.Class, Props: props, Msg: v2.Msg, Replay: path, Facts: sim.FactsOf(small, v2)})
@@ -446,11 +462,12 @@ func cmdRun(args []string) int {
 		unconf        []workerMsg
 		crashes       []string
 		lastStart     map[int]workerMsg
+		lastFound     map[int]workerMsg
 		foreignNotes  []string
 		crashReports  int
 		skippedDeaths int
 	}
-	a := &agg{shapes: map[uint64]struct{}{}, digests: map[uint64]struct{}{}, lastStart: map[int]workerMsg{}}
+	a := &agg{shapes: map[uint64]struct{}{}, digests: map[uint64]struct{}{}, lastStart: map[int]workerMsg{}, lastFound: map[int]workerMsg{}}
 	a.sum.Ops, a.sum.Faults, a.sum.Probes, a.sum.Foreign = map[string]int{}, map[string]int{}, map[string]int{}, map[string]int{}
 
 	var wg sync.WaitGroup
@@ -503,10 +520,14 @@ func cmdRun(args []string) int {
 				switch m.T {
 				case "start":
 					a.lastStart[i] = m
+				case "found":
+					a.lastFound[i] = m
 				case "viol":
 					a.viols = append(a.viols, m)
+					a.lastFound[i] = workerMsg{}
 				case "unconfirmed":
 					a.unconf = append(a.unconf, m)
+					a.lastFound[i] = workerMsg{}
 				case "foreign":
 					if len(a.foreignNotes) < 20 {
 						a.foreignNotes = append(a.foreignNotes, fmt.Sprintf("note: foreign trip class=%s props=%v seed=%d: %s", m.Class, m.Props, m.Seed, m.Msg))
@@ -560,6 +581,12 @@ func cmdRun(args []string) int {
 				a.Unlock()
 				var rep *workerMsg
 				a.Lock()
+				if lf := a.lastFound[i]; lf.Replay != "" && lf.K == ls.K {
+					// killed while minimising a violation it had already found and written out: report that one as it is
+					a.viols = append(a.viols, lf)
+					a.Unlock()
+					return
+				}
 				a.crashReports++
 				doReport := a.crashReports <= 2
 				a.Unlock()
